@@ -900,6 +900,25 @@ class Translator:
         if v.get('storageClass') == 'static':
             # a function-local static with a constant (value-initialising) initialiser: a C static, zero initialised
             core = self.strip(init) if init else None
+            lit = None
+            x = init
+            while x is not None and x.get('kind') in ('ExprWithCleanups', 'CXXConstructExpr', 'MaterializeTemporaryExpr', 'CXXBindTemporaryExpr', 'ImplicitCastExpr', 'CXXFunctionalCastExpr'):
+                kids = [k for k in x.get('inner', []) if k.get('kind') != 'CXXDefaultArgExpr']
+                if len(kids) != 1:
+                    x = None
+                    break
+                x = kids[0]
+            if x is not None and x.get('kind') == 'StringLiteral':
+                lit = x['value']
+            if lit is not None:
+                # `static const std::string x = "literal"`: a file-scope character array holding the literal of the current source
+                if not hasattr(self, 'file_statics'):
+                    self.file_statics, self.local_names = [], {}
+                gname = '%s__%s' % (self.cur_fn, name)
+                self.file_statics.append((gname, 'static const char %s[] = %s' % (gname, lit)))
+                self.local_names[v['id']] = gname
+                self.locals[-1][v['id']] = CT('const char', 1, cxx='char')
+                return ''
             if t.ref or (core is not None and core.get('kind') not in ('InitListExpr', 'CXXConstructExpr', 'ImplicitValueInitExpr')) or \
                     (core is not None and core.get('inner')):
                 raise Unsupported('static local %s with a non-trivial initialiser' % name)
